@@ -124,6 +124,26 @@ T = {
  "C19-F": ("C19", "Ord for Tr compares leaves without their depths", "same leaves, different tree shapes"),
  "C20-E": ("C20", "get_nth_child drops the second child of or_c (as C03-E; iter_pk misses keys)", "or_c with a key in its right child"),
  "C20-F": ("C20", "translate_pk_ctx rebuilds a: as s:", "any key translation of a miniscript using the a: wrapper"),
+ "C01-G": ("C01", "Pkh::get_satisfaction pushes the key always in compressed form", "top-level pkh(K) with an uncompressed key, direct satisfaction"),
+ "C01-H": ("C01", "Plan::satisfy drops placeholders the satisfier cannot fill instead of failing", "plan completed with a satisfier holding a strict non-empty subset of what the plan uses"),
+ "C04-G": ("C04", "decoder validates the multi_a threshold against the CHECKMULTISIG limit (20)", "tapscript multi_a with k > 20"),
+ "C04-H": ("C04", "MsKeyBuilder::push_ms_key (ECDSA arm) always pushes the compressed key", "pk_k with an uncompressed key in Bare / Legacy"),
+ "C08-G": ("C08", "check_binary_ops accepts or() with more than two children (third branch silently lost)", "n-ary Concrete::Or built through the enum constructor"),
+ "C08-H": ("C08", "compiler insert_elem no longer refuses d: where the context forbids it", "Legacy / Bare target, thresh(k<n) with a timelock child"),
+ "C10-G": ("C10", "expression parser depth guard > became >= (limit 402)", "text of bracket depth exactly 402"),
+ "C10-H": ("C10", "WalletPolicy key translation hard-codes an unhardened wildcard", "descriptor with /<0;1>/*h keys through WalletPolicy::from_descriptor"),
+ "C12-G": ("C12", "BareCtx multisig key-count check uses k instead of n", "bare multi with k <= 3 < n"),
+ "C12-H": ("C12", "Tap::SANE max_exec_stack_size taken from MAX_SCRIPT_SIZE", "tap leaf needing 1001..10000 stack elements (multi_a with 999 keys)"),
+ "C13-G": ("C13", "from_txdata plain P2SH branch decodes the redeem script in the Segwitv0 context", "sh() with an uncompressed key in pk_k / multi"),
+ "C13-H": ("C13", "Stack::evaluate_after: operands swapped in the time-based arm", "after(n >= 500000000) with nLockTime on either side of n"),
+ "C14-G": ("C14", "finalizer get_utxo indexes non_witness_utxo by the input's position instead of vout", "pre-segwit input whose vout differs from its index"),
+ "C14-H": ("C14", "update_input_with_descriptor compares only the script of witness_utxo and non_witness_utxo", "both utxo forms present with different amounts"),
+ "C16-G": ("C16", "DescriptorMultiXKey<Xpriv>::to_public shared-prefix uses any instead of all", "secret multipath key with 3+ alternatives, a later one repeating the first"),
+ "C16-H": ("C16", "Wsh::new_sortedmulti builds Terminal::Multi", "wsh / sh(wsh) sortedmulti through the constructors with unsorted keys"),
+ "C18-G": ("C18", "Semantic::at_lock_time via is_satisfied_by with the other unit pinned to its minimum", "after(500000000) filtered at a block height"),
+ "C18-H": ("C18", "Concrete::lift: or() with an UNSATISFIABLE child lifts to UNSATISFIABLE", "concrete or() with an unsatisfiable and a satisfiable branch"),
+ "C20-G": ("C20", "Miniscript::translate_pk runs top_level_checks on the result", "translate_pk on a V/K/W sub-node or a non-standard bare miniscript"),
+ "C20-H": ("C20", "Semantic::translate_pk maps TRIVIAL to UNSATISFIABLE", "semantic policy containing TRIVIAL"),
 }
 
 def main():
